@@ -22,7 +22,7 @@ def cases(seed, tier):
     out = []
     n = 250 if tier == 'quick' else 8000
     for i in range(n):
-        tops = [T.rand_tree(rng, RN[k], rng.choice([1, 2, 4]), names=['a', 'b', 'c', 'array_0', 'array_1'], md_p=0.4, max_depth=3) for k in range(4)]
+        tops = [T.rand_tree(rng, RN[k], rng.choice([1, 2, 4]), names=['a', 'b', 'c', 'array_0', 'r1', 'r2', 'r3'], md_p=0.4, max_depth=3) for k in range(4)]
         for k in range(3):
             c = rng.choice(['Node', 'Array', 'PointList'])
             tops.append({'cls': c, 'name': rng.choice(['u%d' % k, 'array_%d' % k]), 'tok': T.fresh_tok() if c != 'Node' else 0, 'rank': 1 if c == 'Array' else 0,
